@@ -2,7 +2,7 @@
 //! element counts at and just beyond the 32 bit offset type, with a counting `Serialize` impl so that no
 //! memory is needed (`List<Null>` column: the child only counts).
 //! Both tiers (milliseconds): kind `deep_term` — a `data_type` text `A(A(…I8…))` nested `n` levels deep handed to
-//! `SerdeArrowSchema::from_value` (fix c368604: before it the recursive descent of `Term::from_str` exhausted the
+//! `SerdeArrowSchema::from_value` (fix d2b4b5b: before it the recursive descent of `Term::from_str` exhausted the
 //! stack from some 50 000 levels on — an abort of the process, which `./check` attributes to the case).
 use crate::outcome;
 use crate::Ctx;
